@@ -36,11 +36,13 @@ Independence(i) ==
                                                       /\ InstOf[e.cmds[j2][2]] = InstOf[c[2]]})
      IN (c[1] = "start" /\ busy + mates < Limit[InstOf[c[2]]]) => e.post.pc[c[2]] \in {"exec", "done"}
 
-NoError(e) == \A r \in Runs : e.post.pc[r] # "error"
+\* runs the schedule made fail on purpose (a step raised) end with an error; nobody else does
+MadeFail(i) == UNION {{Tr[j].cmds[k][2] : k \in {k \in 1..Len(Tr[j].cmds) : Tr[j].cmds[k][1] = "fail"}} : j \in 1..i}
+NoError(i) == \A r \in Runs : Tr[i].post.pc[r] = "error" => r \in MadeFail(i)
 
 Clause(i) == LET e == Tr[i] IN
    IF ~LimitOK(e) THEN "limit"
-   ELSE IF ~NoError(e) THEN "run_failed"
+   ELSE IF ~NoError(i) THEN "run_failed"
    ELSE IF ~Progress(e) THEN "progress"
    ELSE IF ~Independence(i) THEN "independence"
    ELSE "ok"
